@@ -2220,6 +2220,15 @@ impl CharacterDataMut for XmlText {
             Ok(())
         }
     }
+
+    fn replace_data(&self, offset: usize, count: usize, arg: &str) -> error::Result<()> {
+        if self.length() < offset {
+            Err(error::DomException::IndexSizeErr)?
+        } else {
+            self.data.borrow_mut().replace(offset, count, arg)?;
+            Ok(())
+        }
+    }
 }
 
 impl Node for XmlText {
@@ -2372,6 +2381,15 @@ impl CharacterDataMut for XmlComment {
             Err(error::DomException::IndexSizeErr)?
         } else {
             self.data.borrow_mut().delete(offset, count);
+            Ok(())
+        }
+    }
+
+    fn replace_data(&self, offset: usize, count: usize, arg: &str) -> error::Result<()> {
+        if self.length() < offset {
+            Err(error::DomException::IndexSizeErr)?
+        } else {
+            self.data.borrow_mut().replace(offset, count, arg)?;
             Ok(())
         }
     }
@@ -2556,6 +2574,15 @@ impl CharacterDataMut for XmlCDataSection {
             Err(error::DomException::IndexSizeErr)?
         } else {
             self.data.borrow_mut().delete(offset, count);
+            Ok(())
+        }
+    }
+
+    fn replace_data(&self, offset: usize, count: usize, arg: &str) -> error::Result<()> {
+        if self.length() < offset {
+            Err(error::DomException::IndexSizeErr)?
+        } else {
+            self.data.borrow_mut().replace(offset, count, arg)?;
             Ok(())
         }
     }
